@@ -832,8 +832,8 @@ class C01(fw.Check):
             'M:N workers with szin 0..3 / szout 0..3, unused ports and dangling branches, stateless/stateful mix, repeated '
             'equal builders, groups with 0/1 trained and 0..n applied forks, train/label from arbitrary upstream ports, '
             'shuffled subscription order), assets absent / any subset and order of the eligible groups (+ foreign gids) '
-            'with no / partial / full previous generation; thorough adds every segment over a 6-letter shape alphabet '
-            'with up to 5 workers x 3 asset variants. A case is distinct by (exported graph, assets) and non-trivial when '
+            'with no / partial / full previous generation, trainers fed by the tail; plus every segment over a 6-letter shape '
+            'alphabet with up to 3 (quick) / 4 (thorough) workers x 3 asset variants and a stride sample of the next size. A case is distinct by (exported graph, assets) and non-trivial when '
             'it has >= 3 workers and compiles. Compared: structural (order-insensitive) symbol tables, values of all '
             'symbols, execution counts, visit order, commit/dump/load records; oracle = direct graph evaluation.')
     TRUSTED = [
@@ -1045,7 +1045,7 @@ class C01(fw.Check):
         self._batch(LONE, 'valid')
         self._batch(MALFORMED, 'malformed')
         specs = []
-        for _ in range(self.n(400, 5000)):
+        for _ in range(self.n(1500, 15000)):
             hi = 12 if self.quick else 25
             size = rng.choice([2, 3, 3, 4, 5, 6, 8, 10, hi])
             specs.append(gen_bounded(rng, size))
@@ -1054,14 +1054,24 @@ class C01(fw.Check):
         mal = [gen_bounded(rng, rng.choice([3, 4, 6, 9]), mode='train', want_assets=True, malformed=True)
                for _ in range(self.n(60, 600))]
         self._batch(mal, 'malformed')
-        if not self.quick:
-            small = list(enum_small(5))
-            self.notes.append(f'exhaustive small shapes: {len(small)} (<= 5 workers x asset variants)')
-            for chunk in range(0, len(small), 1000):
-                self._batch(small[chunk:chunk + 1000], 'valid')
-        else:
-            small = list(enum_small(3))
-            self._batch(small, 'valid')
+        # every segment over the 6-letter shape alphabet: exhaustive up to 3 (quick) / 4 (thorough) workers, plus a
+        # fixed stride sample of the next size (1.1 million shapes with 5 workers: sampled, not exhausted)
+        full, nxt, want = (3, 4, 2500) if self.quick else (4, 5, 100000)
+        small = list(enum_small(full))
+        total = 0
+        sample = []
+        for i, spec in enumerate(enum_small(nxt)):
+            total += 1
+        stride = max(1, total // want)
+        offset = rng.randrange(stride)
+        for i, spec in enumerate(enum_small(nxt)):
+            if i % stride == offset:
+                sample.append(spec)
+        self.notes.append(f'small shapes: all {len(small)} with <= {full} workers x asset variants; {len(sample)} of the '
+                          f'{total} with <= {nxt} workers (stride {stride})')
+        for part in (small, sample):
+            for chunk in range(0, len(part), 1000):
+                self._batch(part[chunk:chunk + 1000], 'valid')
         self._selftest()
 
     def _selftest(self):
